@@ -214,6 +214,11 @@ class Endpoint(object):
         ev = (opcode.value, payload if payload is None or isinstance(payload, str) else bytes(payload))
         self.events.append(ev)
         self.by_handler.setdefault(id(handler), []).append(ev)
+        # an endpoint that acts on what it hears: it answers, or closes its side while the client is still sending
+        if isinstance(payload, str) and payload.startswith("!send"):
+            handler.send("echo:" + payload)
+        elif isinstance(payload, str) and payload.startswith("!close"):
+            handler.close()
 
 
 def make_channel(router_holder):
@@ -329,7 +334,15 @@ def gen_frames(r, small=False):
             n = r.choice([0, 1, 2, 5, 124, 125, 126, 127, 128, 200, 1000, r.randrange(0, 300)] +
                          ([65535, 65536, 66000] if r.random() < 0.08 else []))
         if op == "Text":
-            p = "".join(r.choice("abcé中 z") for _ in range(n)).encode("utf-8")
+            p = "".join(r.choice("abcé中 z") for _ in range(n))
+            x = r.random()
+            if x < 0.12:
+                p = "\ufeff" + p            # a text that starts with U+FEFF (the character is part of the message)
+            elif x < 0.2:
+                p = "!send" + p             # the endpoint answers from inside its callback
+            elif x < 0.27 and not small:
+                p = "!close" + p            # the endpoint closes its side; the client's later frames still arrive
+            p = p.encode("utf-8")
         else:
             p = r.randbytes(n)
         key = r.choice([r.randbytes(4), b"\x00\x00\x00\x00", b"\xff\x00\xff\x00"])
